@@ -20,7 +20,7 @@ RULE = ("one run = GFA1 graph with count tags + scheduled delivery + one multipl
         "names); post-state checked; distinct = distinct (neighbourhood digest, factor, policy) tuples")
 PROBES = ["factor0", "factor1", "negative", "factor_ge2", "self_link", "parallel_links", "containment",
           "given_names", "auto_names_collision", "name_with_star", "distribute_L", "distribute_R",
-          "distribute_auto", "distribute_equal", "counts_divided", "id_tagged_edge", "gfa2_graph"]
+          "distribute_auto", "distribute_equal", "counts_divided", "id_tagged_edge", "gfa2_graph", "bad_copy_names"]
 
 
 def gen(streams, tier, i):
@@ -49,8 +49,14 @@ def gen(streams, tier, i):
     distribute = hr.choice([None, None, "off", "auto", "equal", "L", "R"])
     seg = hr.choice(segs)
     copy_names = None
+    bad_names = False
     if factor >= 2 and hr.random() < 0.4:
         copy_names = ["cp%d" % j for j in range(factor - 1)]
+        if hr.random() < 0.25:
+            # a requested name is in use, or given twice: the call is refused and nothing is changed
+            j = hr.randrange(len(copy_names))
+            copy_names[j] = hr.choice(segs) if (len(copy_names) == 1 or hr.random() < 0.6) else copy_names[j - 1]
+            bad_names = True
     extra = []
     if hr.random() < 0.3:
         # automatic names that collide with existing segments
@@ -59,7 +65,7 @@ def gen(streams, tier, i):
     for ln in order + extra:
         ops.append({"op": "add", "line": ln, "as": "str"})
     ops.append({"op": "multiply", "seg": seg, "factor": factor, "distribute": distribute, "copy_names": copy_names,
-                "by": hr.choice(["name", "line"])})
+                "by": hr.choice(["name", "line"]), "bad_names": bad_names})
     return {"cfg": {"order": mode, "version": version}, "ops": ops}
 
 
@@ -158,6 +164,15 @@ def run(scn, st):
                                      (seg, k, "returned" if o.ok else "raised " + o.excname), factor="neg")
             if ob.observe(g) != pre_obs:
                 raise core.Violation("negative-factor-changed", "refused multiply changed the Gfa", factor="neg")
+            continue
+        if op.get("bad_names"):
+            st.count("probe.bad_copy_names")
+            if o.ok:
+                raise core.Violation("bad-names-accepted", "multiply(%s, %d, copy_names=%r) with a name in use / repeated returned" %
+                                     (seg, k, op["copy_names"]), factor=min(k, 2))
+            if ob.observe(g) != pre_obs:
+                raise core.Violation("refused-multiply-changed", "multiply(%s, %d, copy_names=%r) raised %s but changed the Gfa" %
+                                     (seg, k, op["copy_names"], o.excname), factor=min(k, 2))
             continue
         if not o.ok:
             raise core.Violation("multiply-raised", "multiply(%s, %d, %r) raised %s: %s" %
@@ -262,6 +277,12 @@ def run(scn, st):
             # the other end are full copies
             ends = {}
             for f in mine:
+                if f[0] == "L" and f[1] == f[3]:
+                    # a link of the segment with itself: some copy still has its copy of it
+                    if not any(edge_key(f, {seg: c}) in [edge_key(x) for x in E1] for c in copies):
+                        raise core.Violation("neighbour-lost", "after multiply(%s,%d,distribute=%s) no copy keeps the "
+                                             "self-link %r" % (seg, k, d, "\t".join(f)), dist=d)
+                    continue
                 if f[0] != "L" or f[1] == f[3]:
                     continue
                 kk = [t for t in f if t.startswith(("k1=", "k2="))]
